@@ -154,19 +154,23 @@ theorem deleteRange_source_boundaries :
         Generated.deleteRangeDecide mn first first last = .head (first + 1)) := by
   refine ⟨?_, ?_⟩
   · intro first last h0 h1 h2
-    have a : ¬ first > 2^64 - 1 := by omega
-    have b : ¬ (2^64 - 1 < first) := by omega
-    have c : ¬ first > last := by omega
-    have d : 2^64 - 1 > last := by omega
-    have e : (last + 1) % 2^64 = last + 1 := Nat.mod_eq_of_lt (by omega)
-    simp [Generated.deleteRangeDecide, a, b, c, d, u64, e]
+    unfold Generated.deleteRangeDecide
+    simp only [u64, u64sub, Bool.or_eq_true, Bool.and_eq_true, decide_eq_true_eq, Bool.not_eq_true', decide_eq_false_iff_not,
+      Bool.not_eq_eq_eq_not, Bool.not_true, Nat.reducePow] at *
+    repeat' split
+    all_goals first
+      | (exfalso; omega)
+      | (simp only [DelAction.head.injEq, DelAction.tail.injEq, reduceCtorEq]; omega)
+      | rfl
   · intro first last mn h0 h1 h2 h3
-    have a : ¬ mn > first := by omega
-    have c : ¬ mn > last := by omega
-    have e : (first + 1) % 2^64 = first + 1 := Nat.mod_eq_of_lt (by omega)
-    by_cases d : first > last
-    · omega
-    · simp [Generated.deleteRangeDecide, a, c, d, h3, u64, e]
+    unfold Generated.deleteRangeDecide
+    simp only [u64, u64sub, Bool.or_eq_true, Bool.and_eq_true, decide_eq_true_eq, Bool.not_eq_true', decide_eq_false_iff_not,
+      Bool.not_eq_eq_eq_not, Bool.not_true, Nat.reducePow] at *
+    repeat' split
+    all_goals first
+      | (exfalso; omega)
+      | (simp only [DelAction.head.injEq, DelAction.tail.injEq, reduceCtorEq]; omega)
+      | rfl
 
 /-- the truncation scans and `StoreLogs`' two guards, as functions translated from the source, decide as the model's do -/
 theorem truncation_scans_from_source (s : SegS) (stateLast newMin newMax : Nat) :
